@@ -309,9 +309,10 @@ def execute(case, backend='sim', record=False):
                 if k == 'force' and detached[i]:
                     # documented: a forced reload overwrites rules given
                     # through set_rules() with the files' content again
+                    # (when there is a file); the enforcer stays without
+                    # a twin either way
                     dirty[i] = True
                     prev_table[i] = None
-                    detached[i] = False
                 try:
                     E[i].load_rules(force_reload=(k == 'force'))
                     r = 'ok'
